@@ -52,10 +52,33 @@ HARNESS_NAMES = {'xt', 'vf', 'vs', 'dzn_meta', 'dzn_runtime', 'dzn_locator', 'ch
                  'unix', 'main', 'argc', 'argv', 'S'}
 
 
+_HARNESS_WORDS = []
+
+
+def harness_words():
+    """Every identifier-shaped word in the harness' own C++ (the generators in vf/cxx, the mock
+    runtime): a model must not use them, the collision would be the harness' fault."""
+    if not _HARNESS_WORDS:
+        import os
+        import re
+        here = os.path.dirname(os.path.abspath(__file__))
+        files = [os.path.join(here, 'cxx', f) for f in os.listdir(os.path.join(here, 'cxx'))
+                 if f.endswith('.py')]
+        rt = os.path.join(os.path.dirname(here), 'mockrt')
+        for d, _dirs, fs in os.walk(rt):
+            files += [os.path.join(d, f) for f in fs]
+        words = set()
+        for fn in sorted(files):
+            with open(fn, encoding='utf-8') as fh:
+                words.update(re.findall(r'[A-Za-z_][A-Za-z0-9_]*', fh.read()))
+        _HARNESS_WORDS.append(words)
+    return _HARNESS_WORDS[0]
+
+
 def dict_words():
     """Identifier-shaped words of the library's own string literals that a Dezyne model may use as a
     name and that neither the harness nor a listed finding excludes."""
-    bad = CXX_KEYWORDS | GENERATED_LOCALS | HARNESS_NAMES
+    bad = CXX_KEYWORDS | GENERATED_LOCALS | HARNESS_NAMES | harness_words()
     def ok(w):
         return w not in bad and '__' not in w and not (w[0] == '_' and (len(w) == 1 or w[1].isupper())) \
             and len(w) <= 24
@@ -108,7 +131,7 @@ def shell_model(draw, force=None, max_ports=6, collide=False):  # pylint: disabl
             G_NS_POOL, G_TYPE_POOL, G_COMP_POOL, G_FIELD_POOL, G_PORT_POOL, G_EVENT_POOL, G_FORMAL_POOL
     if 'big' in feats:
         # sizes: many ports, many events, many formals, long names
-        long_id = 'with_a_very_long_name_that_goes_on_and_on_0123456789_0123456789_0123456789'
+        long_id = 'with_a_very_long_name_that_goes_on_and_on_' + '0123456789_' * 7
         PORT_POOL = list(PORT_POOL) + ['port_' + long_id, 'r1', 'r2', 'r3', 's1', 's2']  # pylint: disable=invalid-name
         EVENT_POOL = list(EVENT_POOL) + ['Event_' + long_id, 'Ev2', 'Ev3']  # pylint: disable=invalid-name
         FORMAL_POOL = list(FORMAL_POOL) + ['formal_' + long_id]  # pylint: disable=invalid-name
